@@ -34,7 +34,7 @@ func (w *verifWorld) listedAnywhere(c *verifContainer) bool {
 // balloon lists a container, the memory allocator holds nothing. A released
 // container is never listed again while the others are released.
 func VerifC09BalloonsQuiescence() {
-	w, err := verifNewPolicy(verifParam("machine", 0), verifConfig())
+	w, err := verifNewPolicy(verifConfig())
 	if err != nil {
 		verifCover("config-rejected")
 		return
@@ -115,7 +115,7 @@ const verifGiB = int64(1) << 30
 // told memory nodes different from the ones it had (memory opt-out).
 func VerifC12BalloonsOptOut() {
 	kind := verifChoice("optout", verifParam("optouts", verifOptCount))
-	cfg := verifConfig()
+	cfg, machine := verifConfig()
 	off := false
 	switch kind {
 	case verifOptPreserveRule:
@@ -128,7 +128,7 @@ func VerifC12BalloonsOptOut() {
 	case verifOptNoPinMemoryType:
 		cfg.BalloonDefs[0].PinMemory = &off // type a
 	}
-	w, err := verifNewPolicy(verifParam("machine", 0), cfg)
+	w, err := verifNewPolicy(cfg, machine)
 	if err != nil {
 		verifCover("config-rejected")
 		return
@@ -168,6 +168,12 @@ func VerifC12BalloonsOptOut() {
 		}
 	}
 	verifCover("optout-history-done")
+	for _, c := range w.ctrs {
+		if c.mems == "0-1" {
+			verifCover("optout-some-zone-widened")
+			break
+		}
+	}
 	switch kind {
 	case verifOptCPUPreserveContainer, verifOptCPUPreservePod, verifOptCPUPreserveBare, verifOptPreserveRule:
 		verifAssert("C12.balloons.preserved-never-told-cpuset", c0.cpusCalls == 0)
@@ -250,10 +256,16 @@ func (v *verifStateView) sameContainers(o *verifStateView) bool {
 //	4: unparsable available cpuset
 //	5: MinBalloons > MaxBalloons in a type, and a different (valid) available cpuset
 //	6: duplicate type names, and a different (valid) reserved cpuset
-func verifBadConfig(kind int) *cfgapi.Config {
+//
+// Unless stated otherwise the available and reserved cpusets are those of the
+// current configuration cur.
+func verifBadConfig(kind int, cur *cfgapi.Config) *cfgapi.Config {
 	cfg := &cfgapi.Config{
 		IdleCpuClass:      "idle",
 		ReservedResources: cfgapi.Constraints{cfgapi.CPU: "cpuset:0"},
+	}
+	if amount, ok := cur.AvailableResources[cfgapi.CPU]; ok {
+		cfg.AvailableResources = cfgapi.Constraints{cfgapi.CPU: amount}
 	}
 	a := &cfgapi.BalloonDef{Name: "a", CpuClass: "class-a", Namespaces: []string{"ns-a"}, AllocatorPriority: cfgapi.PriorityNormal}
 	cfg.BalloonDefs = []*cfgapi.BalloonDef{a}
@@ -285,8 +297,8 @@ func verifBadConfig(kind int) *cfgapi.Config {
 // available / reserved / free CPUs, options, balloons and every container's
 // resources are what they were.
 func VerifC13BalloonsReconfigure() {
-	cfg := verifConfig()
-	w, err := verifNewPolicy(verifParam("machine", 0), cfg)
+	cfg, machine := verifConfig()
+	w, err := verifNewPolicy(cfg, machine)
 	if err != nil {
 		verifCover("config-rejected")
 		return
@@ -316,12 +328,21 @@ func VerifC13BalloonsReconfigure() {
 		verifAssert("C13.balloons.unchanged-config-keeps-cpu-sets", verifAnd(before.allowed.Equals(after.allowed), before.reserved.Equals(after.reserved)))
 	} else {
 		kind := verifChoice("bad", verifParam("badConfigs", 7))
-		err := w.p.Reconfigure(verifBadConfig(kind))
+		err := w.p.Reconfigure(verifBadConfig(kind, cfg))
 		verifCover("reconfigure-rejected")
 		verifAssert("C13.balloons.invalid-config-rejected", err != nil)
 		after := w.stateView()
-		verifAssert("C13.balloons.rejected-config-keeps-available-cpus", before.allowed.Equals(after.allowed))
-		verifAssert("C13.balloons.rejected-config-keeps-reserved-cpus", before.reserved.Equals(after.reserved))
+		// a rejected update that names another available / reserved cpuset than
+		// the current one is judged under its own label
+		availLabel, reservedLabel := "C13.balloons.rejected-config-keeps-available-cpus", "C13.balloons.rejected-config-keeps-reserved-cpus"
+		if kind == 5 {
+			availLabel += ".update-names-other-cpuset"
+		}
+		if kind == 6 {
+			reservedLabel += ".update-names-other-cpuset"
+		}
+		verifAssert(availLabel, before.allowed.Equals(after.allowed))
+		verifAssert(reservedLabel, before.reserved.Equals(after.reserved))
 		verifAssert("C13.balloons.rejected-config-keeps-free-cpus", before.free.Equals(after.free))
 		verifAssert("C13.balloons.rejected-config-keeps-options", before.options == after.options)
 		verifAssert("C13.balloons.rejected-config-keeps-balloons", before.sameBalloons(after))
@@ -332,18 +353,19 @@ func VerifC13BalloonsReconfigure() {
 // ---- C04
 
 // VerifC04BalloonsMem: histories of allocations and releases of containers
-// with memory limits of 0 or 40 GiB (two of the latter overflow a 64 GiB node,
+// with memory limits of 0, 30 or 40 GiB (two of the latter overflow a 64 GiB node,
 // so zones get widened and other containers' zones with them). After every
 // request, for every container that is a member of a balloon and for which the
 // allocator holds an assignment: the memory nodes told to the runtime equal
 // MemsetString(AssignedZone(id)), are non-empty and name existing nodes.
 func VerifC04BalloonsMem() {
-	w, err := verifNewPolicy(verifParam("machine", 0), verifConfig())
+	w, err := verifNewPolicy(verifConfig())
 	if err != nil {
 		verifCover("config-rejected")
 		return
 	}
 	existing := libmem.NewNodeMask(0, 1)
+	zonesBefore := map[string]libmem.NodeMask{}
 	ops := verifParam("ops", 2)
 	for k := 0; k < ops; k++ {
 		if len(w.ctrs) > 0 && verifParam("releases", 1) != 0 && verifChoice("op", 2) == 1 {
@@ -355,13 +377,16 @@ func VerifC04BalloonsMem() {
 			verifAssert("C04.balloons.released-holds-no-memory", !held)
 		} else {
 			c := w.newContainer(int64(verifParam("maxMilli", 2000)))
-			c.memLimit = int64(verifChoice("mem", 2)) * 40 * verifGiB
+			c.memLimit = []int64{0, 40, 30}[verifChoice("mem", verifParam("memSizes", 3))] * verifGiB
 			if err := w.p.AllocateResources(c); err == nil {
 				w.member[len(w.ctrs)-1] = true
 				verifCover("mem-allocated")
 			}
 		}
-		follows, nonEmpty, exist, assigned := true, true, true, true
+		// (a container that was told the memory nodes of its balloon although the
+		// allocator keeps another zone for it - allocMem's fallback when Realloc
+		// fails - is judged under its own label)
+		follows, followsFallback, nonEmpty, exist, assigned := true, true, true, true, true
 		for i, c := range w.ctrs {
 			if !w.member[i] {
 				continue
@@ -371,11 +396,27 @@ func VerifC04BalloonsMem() {
 			if !ok {
 				continue
 			}
-			follows = verifAnd(follows, c.mems == zone.MemsetString())
+			if old, seen := zonesBefore[c.id]; seen && old != zone && i != len(w.ctrs)-1 {
+				verifCover("mem-zone-of-earlier-container-changed")
+			}
+			zonesBefore[c.id] = zone
+			eq := c.mems == zone.MemsetString()
+			fellBack := false
+			if _, b := w.balloonsListing(c.id); b != nil {
+				// told the balloon's nodes while the allocator keeps a strictly smaller zone
+				req := libmem.NewNodeMask(b.Mems.Members()...)
+				fellBack = verifAnd(c.mems == req.MemsetString(), verifAnd(zone != req, zone.And(req) == zone))
+				if zone.Size() > b.Mems.Size() {
+					verifCover("mem-zone-wider-than-balloon-mems")
+				}
+			}
+			follows = verifAnd(follows, verifOr(eq, fellBack))
+			followsFallback = verifAnd(followsFallback, verifOr(eq, !fellBack))
 			nonEmpty = verifAnd(nonEmpty, verifAnd(zone.Size() > 0, c.mems != ""))
 			exist = verifAnd(exist, zone.And(existing) == zone)
 		}
 		verifAssert("C04.balloons.mems-equal-assigned-zone", follows)
+		verifAssert("C04.balloons.mems-equal-assigned-zone.realloc-fell-back-to-requested-nodes", followsFallback)
 		verifAssert("C04.balloons.mems-non-empty", nonEmpty)
 		verifAssert("C04.balloons.mems-existing-nodes", exist)
 		verifAssert("C04.balloons.member-holds-assignment", assigned)
